@@ -39,6 +39,17 @@ type fsState struct {
 	events  []string // ghost: ordering-rule violations observed ("rename-of-unsynced-file <path>", ...)
 	published []string // names that came into existence by rename, in order
 	unlinked  []string // names removed, in order
+	pending   map[string][]string // directory -> names published in it since its last fsync
+}
+
+// pendingAny reports names that were renamed into place but whose directory has not been fsynced since.
+func (st *fsState) pendingAny() []string {
+	var out []string
+	for _, names := range st.pending {
+		out = append(out, names...)
+	}
+	sort.Strings(out)
+	return out
 }
 
 type fsCrash struct{}
@@ -165,6 +176,11 @@ func registerIO(e *Engine) {
 		}
 		delete(st.nodes, p)
 		st.unlinked = append(st.unlinked, p)
+		if !strings.HasSuffix(p, ".tmp") {
+			if pend := st.pendingAny(); len(pend) > 0 {
+				st.events = append(st.events, "unlink-before-publish-durable "+p+" pending="+strings.Join(pend, ","))
+			}
+		}
 		if d := st.nodes[parentDir(p)]; d != nil {
 			d.entriesDirty = true
 		}
